@@ -227,7 +227,8 @@ def digits(draw, kind=None):
 
 JUNK = ['', ' ', 'DNF', 'DNS', 'DQ', 'NT', 'x', '-', '--', '1e3', '1E2', 'inf', 'nan', '-1', '+5', '9.73w', '1:2:3:4', '1..2',
         '1:', ':1', '1.2.3.4', '12 34', '1,2,3', '٣', '１２', '1_0', '0x10', '12m', ' 7.5 ', '1 :2', '2:03:59.', '.5', '5.', '0', '00',
-        '0:0', '0.0', '0:00:00', '59.999', '1:59.999', '59:59.999', '99', '100', '99.99', '1:60', '60:00', '1:00:60']
+        '0:0', '0.0', '0:00:00', '59.999', '1:59.999', '59:59.999', '99', '100', '99.99', '1:60', '60:00', '1:00:60',
+        '100%', '%s', '%d', '%(x)s', '{0}', '{}', '12%3A34', '10.5%', '1:2%', '\\', '\x00', '9.58\x00']
 
 
 def extreme_text(draw):
